@@ -14,6 +14,7 @@ from ..shadow import Lockstep, Divergence, gen_history, norm_assocs
 from ..stream import corelang_spec
 from ..gen_lang import gen_language, Cfg
 from ..gen_model import HOSTILE, EXOTIC, EDGE_DEF_VALUES
+from ..stream import PATH_SHAPES
 
 META = {
     'rule': ('models reached through valid API histories (id gaps after removals, explicit / 0 / negative ids, non-default '
@@ -194,7 +195,8 @@ def gen_case(rng, tier):
     hist = hist + extra_ops
     return {'spec': spec if src == 'generated' else 'corelang', 'history': hist,
             'name': rng.choice(['m', 'My model', 'yes', 'null', '1e3', 'a: b', 'ünï', '#x'] + ([rng.choice(EXOTIC)] * 2 if rng.random() < 0.3 else [])),
-            'fmt': rng.choice(['json', 'yml', 'yml', 'yaml']), 'hw_seed': rng.randrange(10 ** 9)}
+            'fmt': rng.choice(['json', 'yml', 'yml', 'yaml']), 'hw_seed': rng.randrange(10 ** 9),
+            'path_shape': rng.choice(PATH_SHAPES), 'shrink_and_resave': rng.randrange(1, 10 ** 9) if rng.random() < 0.3 else None}
 
 
 def _check_case(case, res, count=True):
@@ -248,8 +250,12 @@ def _check_case(case, res, count=True):
         res.count('format:' + case['fmt'])
     want = shadow_view(ls)
     d = tempfile.mkdtemp(prefix='c07-', dir=os.getcwd())
+    from ..stream import shaped_path
+    shape = shaped_path(d, 'm1.' + case['fmt'], case.get('path_shape', 'abs'))
     try:
-        p1 = os.path.join(d, 'm1.' + case['fmt'])
+        p1 = shape.__enter__()
+        if count:
+            res.count('path-shape:' + case.get('path_shape', 'abs'))
         try:
             ls.model.save_to_file(p1)
         except Exception as exc:
@@ -266,7 +272,7 @@ def _check_case(case, res, count=True):
         if f:
             return (f[0], 'after save/load (.%s): %s' % (case['fmt'], f[1]))
         # save the loaded model again: same content
-        p2 = os.path.join(d, 'm2.' + case['fmt'])
+        p2 = os.path.join(os.path.dirname(p1), 'm2.' + case['fmt'])
         try:
             m2.save_to_file(p2)
         except Exception as exc:
@@ -319,7 +325,30 @@ def _check_case(case, res, count=True):
         if f:
             return (f[0].replace('model.load', 'model.load-handwritten'),
                     'hand-written .%s file (asset order %s): %s' % (case['fmt'], list(hw['assets']), f[1]))
+        # the model shrinks (assets removed through the API) and is saved over the first file: the file holds the
+        # smaller model only
+        if case.get('shrink_and_resave') and len(sh.assets) >= 2:
+            srng = random.Random(case['shrink_and_resave'])
+            try:
+                for _ in range(max(1, len(sh.assets) // 2)):
+                    ls.apply(['remove_asset', ['live', srng.randrange(64)]])
+                for a2 in sh.assets:
+                    ls.apply(['set_extras', ['live', 0], {}])
+                ls.model.save_to_file(p1)
+                m5 = Model.load_from_file(p1, ls.factory)
+                got5 = typed_view(m5, lang)
+            except Divergence as dv:
+                return (dv.key, dv.what)
+            except Exception as exc:
+                return ('model.resave-same-path:raised-%s' % type(exc).__name__,
+                        'assets were removed and the model saved to the same .%s path again; save / load raised %r' % (case['fmt'], exc))
+            if count:
+                res.count('class:smaller-model-saved-over-the-same-path')
+            f = diff_views(got5, shadow_view(ls))
+            if f:
+                return (f[0].replace('model.load', 'model.resave-same-path'), 'smaller model saved to the same path again: ' + f[1])
     finally:
+        shape.__exit__(None, None, None)
         shutil.rmtree(d, ignore_errors=True)
     return None
 
